@@ -1,4 +1,7 @@
 import MobiusModel.Accounts
+import MobiusModel.AccountsWire
+import MobiusModel.AccountsFault
+import MobiusModel.Generated.InitBranch
 /-!
   C15 — Accounts: what can log in = what is listed = what is on disk.
 
@@ -422,5 +425,109 @@ def updateOld (a : Account Bytes) (newLogin : Login) (st : State Bytes) : State 
 theorem old_update_breaks_agreement :
     let s := updateOld admin [98] st0
     s.mem.get [97] = some admin ∧ s.disk.get ([97] ++ yamlExt) = none := by decide
+
+/-! ### Wave d: requests as BYTES (both parsers), field order and sizes, failing persists, `-init` -/
+
+/-- What reaches the account store from the bytes of a request is the operation on the fields that were
+    sent: `Transaction.decode` (the C01 theorem `Transaction.decode_encode'`) and, for update-user, the
+    sub-record scanner return exactly the fields the client encoded — for every number, order and size of
+    fields a transaction can carry (each field < 65536 bytes, payload < 4 GiB). -/
+theorem wire_request_is_its_fields (env : Env H) (st : State H) (id : Nat) (o : Op) (h : o.Sendable id) :
+    stepW env st (o.wire id) = step env st o :=
+  stepW_wire env st id o h
+
+/-- … so every theorem above holds for histories whose requests arrive as bytes; the main one: -/
+theorem mem_disk_agree_wire (env : Env H) (st : State H) (h0 : Inv st) (id : Nat) (ops : List Op)
+    (hl : ∀ o ∈ ops, o.Legal) (hs : ∀ o ∈ ops, o.Sendable id) (l : Login) (a : Account H) :
+    (runW env st (ops.map (Op.wire id))).mem.get l = some a ↔
+      ((runW env st (ops.map (Op.wire id))).disk.get (l ++ yamlExt) = some a ∧ a.login = l) := by
+  rw [runW_wire env st id ops hs]
+  exact mem_disk_agree env st h0 ops hl l a
+
+/-- The order of the fields of a request (and of the sub-fields of an update-user record) does not matter:
+    with pairwise different field types every handler gives the same result on every permutation. -/
+theorem request_field_order_irrelevant (env : Env H) (fs fs' : List Field) (hp : fs.Perm fs')
+    (hn : (fs.map (·.ty)).Nodup) (st : State H) :
+    handleNewUser env fs st = handleNewUser env fs' st ∧ handleSetUser env fs st = handleSetUser env fs' st ∧
+    handleDeleteUser env fs st = handleDeleteUser env fs' st ∧ updateRec env fs st = updateRec env fs' st :=
+  ⟨handleNewUser_perm env hp hn st, handleSetUser_perm env hp hn st, handleDeleteUser_perm env hp hn st,
+   updateRec_perm env hp hn st⟩
+
+/-- a sendable rename record with the name sub-field in front of the others -/
+def bigName : Bytes := List.replicate 40 65
+
+example : (Op.updateUser [[⟨102, bigName⟩, ⟨101, [0x9e]⟩, ⟨105, [0x9c]⟩, ⟨106, [9]⟩]]).Sendable 7 := by
+  refine ⟨?_, ?_⟩
+  · intro t ht
+    cases ht
+    refine ⟨by decide, by decide, by decide, ?_, by decide, by decide⟩
+    intro f hf
+    simp only [List.map_cons, List.map_nil, List.mem_singleton] at hf
+    subst hf
+    exact ⟨by decide, by decide⟩
+  · intro fs hfs
+    simp only [List.mem_singleton] at hfs
+    subst hfs
+    refine ⟨?_, by decide⟩
+    intro f hf
+    simp only [List.mem_cons, List.not_mem_nil, or_false] at hf
+    rcases hf with rfl | rfl | rfl | rfl <;> exact ⟨by decide, by decide⟩
+
+example : ([⟨102, [66]⟩, ⟨105, [0x9d]⟩, ⟨110, [0]⟩, ⟨106, [1]⟩] : List Field).Perm [⟨105, [0x9d]⟩, ⟨106, [1]⟩, ⟨102, [66]⟩, ⟨110, [0]⟩] := by
+  decide
+
+/-- A request that cannot be persisted (the store's temporary file cannot be written) changes NOTHING:
+    new-user is refused, set-user leaves the state as it was, a create / modify sub-record of update-user
+    leaves the state as it was and ends the request. -/
+theorem failed_persist_changes_nothing (env : Env H) (fs : List Field) (st : State H) :
+    handleNewUserF .tmpBlocked env fs st = (st, .errReply) ∧
+    (handleSetUserF .tmpBlocked env fs st).1 = st ∧
+    (Inv st → fs.length ≠ 1 → NoRename fs →
+      (updateRecF .tmpBlocked env fs st).1 = st ∧ (updateRecF .tmpBlocked env fs st).2 ≠ none) :=
+  ⟨handleNewUserF_blocked env fs st, handleSetUserF_blocked env fs st, updateRecF_blocked env fs st⟩
+
+/-- The agreement of memory and disk over ALL histories in which any step may be served under the
+    failing persist (`FLegal`: legal logins; no rename sub-record under the fault — see the witness below). -/
+theorem mem_disk_agree_with_failing_persists (env : Env H) (st : State H) (h0 : Inv st)
+    (ops : List (Fault × Op)) (hl : ∀ o ∈ ops, FLegal o) (l : Login) (a : Account H) :
+    ((runF env st ops).mem.get l = some a ↔ ((runF env st ops).disk.get (l ++ yamlExt) = some a ∧ a.login = l)) ∧
+    (load (runF env st ops).disk).get l = (runF env st ops).mem.get l := by
+  have hi := runF_inv env ops st h0 hl
+  refine ⟨⟨fun hm => ?_, fun ⟨hd, hlg⟩ => ?_⟩, load_eq_mem _ hi l⟩
+  · obtain ⟨h1, _, h3⟩ := hi.mem_ok l a hm
+    exact ⟨h3, h1⟩
+  · have := (hi.disk_ok _ a hd).2
+    rw [hlg] at this; exact this
+
+/-- without a fault `stepF` is `step` -/
+theorem no_fault_is_step (env : Env H) (st : State H) (op : Op) : stepF env st (.none, op) = step env st op :=
+  stepF_none env st op
+
+def newB : Op := .newUser [⟨105, [0x9d]⟩, ⟨102, [66]⟩, ⟨106, [1, 2]⟩, ⟨110, [0, 0, 0, 0, 0, 0, 0, 0]⟩]
+def setB : Op := .setUser [⟨105, [0x9d]⟩, ⟨102, [67]⟩, ⟨106, [0]⟩, ⟨110, [128, 0, 0, 0, 0, 0, 0, 0]⟩]
+def modB : Op := .updateUser [[⟨105, [0x9d]⟩, ⟨102, [68]⟩, ⟨106, [9]⟩], [⟨101, [0x9e]⟩]]
+
+example : ∀ o ∈ ([(.tmpBlocked, newB), (.none, newB), (.tmpBlocked, setB), (.tmpBlocked, modB), (.none, modB)] : List (Fault × Op)), FLegal o := by
+  decide
+-- the first (failing) new-user leaves the state alone, the second creates b
+example : (runF envT st0 [(.tmpBlocked, newB)]).mem.get [98] = none ∧
+    ((runF envT st0 [(.tmpBlocked, newB), (.none, newB)]).mem.get [98]).isSome = true := by decide
+
+/-- FINDING (code as it is): a rename sub-record served while the temporary file cannot be written is
+    refused, but the file has already been renamed and the table switched — memory holds login "b" with
+    the new name while the file `b.yaml` still holds login "a" with the old one; a restart brings "a" back. -/
+theorem rename_with_failing_write_breaks_agreement :
+    let r := stepF envT st0 (.tmpBlocked, .updateUser [[⟨101, [0x9e]⟩, ⟨105, [0x9d]⟩, ⟨102, [66]⟩, ⟨106, [0]⟩]])
+    r.2 matches .silent ∧
+    r.1.mem.get [98] = some ⟨[98], [66], [115], admin.access⟩ ∧ r.1.disk.get ([98] ++ yamlExt) = some admin ∧
+    (load r.1.disk).get [98] = none ∧ (load r.1.disk).get [97] = some admin := by decide
+
+/-- `-init` on an existing config directory writes nothing (regenerated from cmd/mobius-hotline-server/main.go on
+    every run): the branch only logs, and no file-writing call stands between process start and the account
+    loader outside the populate branch — so `restart` (the loader on the directory as the server left it) is
+    what a restart of the real binary does, with or without `-init`. -/
+theorem init_on_existing_dir_writes_nothing :
+    Generated.initGuard = "_,err:=os.Stat(path.Join(*configDir,\"/config.yaml\"));os.IsNotExist(err)" ∧
+    Generated.initExistingDirCalls = ["slogger.Info"] ∧ Generated.startupWriters = [] := by decide
 
 end Mobius.C15
